@@ -1,5 +1,6 @@
 import Cbor.Drv.Util
 import Cbor.Spec.Head
+import Cbor.Spec.Utf8
 /-! Executable Spec operations (the property oracle); no dependency on `Cbor.Gen` / `Cbor.Model`. -/
 namespace Drv
 open Spec
@@ -33,11 +34,46 @@ def HeadRes.fmt : HeadRes → String
   | .nedata n => s!"nedata {n}"
   | .error => "error"
 
+def incFromS (b : Array UInt8) (pl : Nat) : Option (Array UInt8) :=
+  let rec go (i : Nat) (b : Array UInt8) : Option (Array UInt8) :=
+    match i with
+    | 0 => none
+    | i+1 =>
+      if i < pl then none
+      else
+        let v := b.getD i 0 + 1
+        let b := b.setIfInBounds i v
+        if v != 0 then some b else go i b
+  go b.size b
+
+def fnvS (h x : UInt64) : UInt64 := (h ^^^ x) * 1099511628211
+
+partial def utf8AllLoopS (b : Array UInt8) (pl : Nat) (h n valid sum : UInt64) : UInt64 × UInt64 × UInt64 × UInt64 :=
+  let c := Spec.Utf8.count (b.toList.map (·.toNat))
+  let (cnt, st) : UInt64 × UInt64 := match c with | some k => (UInt64.ofNat k, 0) | none => (0, 1)
+  let h := fnvS (fnvS h cnt) st
+  let n := n + 1
+  let (valid, sum) := if st == 0 then (valid + 1, sum + cnt) else (valid, sum)
+  match incFromS b pl with
+  | some b' => utf8AllLoopS b' pl h n valid sum
+  | none => (h, n, valid, sum)
+
 def specOp (ws : List String) : Option String :=
   match ws with
   | ["HEAD", h] => do
       let a ← parseHex h
       some (HeadRes.fmt (decodeHead (getA a 0) a.size))
+  | ["UTF8", h] => do
+      let a ← parseHex h
+      match Spec.Utf8.count (a.toList.map (·.toNat)) with
+      | some k => some s!"{k} 0"
+      | none => some "0 1"
+  | ["UTF8ALL", l, h] => do
+      let len ← l.toNat?; let pre ← parseHex h
+      let b0 : Array UInt8 := (Array.replicate len 0)
+      let b0 := (List.range pre.size).foldl (fun a i => a.setIfInBounds i (pre.getD i 0)) b0
+      let r := utf8AllLoopS b0 pre.size 1469598103934665603 0 0 0
+      some s!"{r.1} {r.2.1} {r.2.2.1} {r.2.2.2}"
   | _ => none
 
 end Drv
